@@ -46,7 +46,7 @@ def gen_case(rng, params, idx):
     npos = rng.choice([1, 2, 2, 3])
     methods = []
     for i in range(rng.randint(2, 8)):
-        ar = npos if rng.random() < 0.8 else rng.randint(1, 3)
+        ar = npos if rng.random() < 0.8 else rng.randint(0, 3)
         pos = [{"n": f"a{j}", "t": gen.gen_wide_tx(rng, classes)} for j in range(ar)]
         if ar > 1 and rng.random() < 0.25:
             pos[-1]["opt"] = True
@@ -58,6 +58,8 @@ def gen_case(rng, params, idx):
                 kws.append({"n": k, "t": kt, "req": rng.random() < 0.5})
             kws.sort(key=lambda k: k["n"])
         kind = rng.choice(["leaf", "leaf", "next", "rec", "nextalt", "recnest"] + (["fnext"] if not kws and ar == npos else []))
+        if ar == 0:
+            kind = "leaf"
         if any(p.get("opt") for p in pos) and kind in ("next", "fnext"):
             kind = "leaf"
         methods.append({"mid": i, "pos": pos, "kw": kws, "prio": rng.choice([0, 0, 1]), "kind": kind})
